@@ -53,7 +53,7 @@ for d in sorted(glob.glob(os.path.join(V, "seeded", "C*-*"))):
     except Exception:
         continue
     r = res.get(sid, {})
-    rep = r.get("report", "")
+    rep = str(r.get("report", ""))
     mm = re.search(r"['\"](D\w+|ANALYSIS-BROKEN)[ :]", rep)
     out.append("| %s | %s | %s | %s |" % (sid, (m.get("summary") or "")[:260].replace("|", "/").replace("\n", " "), r.get("verdict", "not run (property not applicable)" if sid.startswith("C06") else "not run"), mm.group(1) if mm else ""))
 out.append("")
